@@ -16,9 +16,9 @@ from ..flows import canon_flow, compile_flow_sheet, rows_to_csv
 from ..gen import sheets as G
 
 MANIFEST = dict(
-    text="Proof: Lean theorems validCert_sound / flows_equiv_of_cert (an accepted bisimulation certificate implies equal observation traces for EVERY infinite sequence of contact replies, field/group values, random draws and sub-flow/webhook/airtime outcomes, under every interpretation of the tests). The verified checker is run by the driver on every generated core sheet between the REAL compiler's output and the reference interpretation refFlow (the statement of C02 made executable in Lean; reference_flow_closed: for EVERY sheet it is a closed flow, so no reference path ends for a structural reason). Universal over sheets: proved for ALL sheets of the fragment CoreSheet.inFragment (every row type of a core sheet except no_op and insert_as_block: action rows left unconditionally or conditionally — the compiler's router node behind the action node, two compiled nodes for one reference node —, wait_for_response with or without timeout, split_by_value, split_by_group, split_random, start_new_flow / call_webhook / transfer_airtime, go_to / hard_exit / loose_exit, with any number of conditional or unconditional edges: chains, trees, joins, last-edge-wins defaults, tests in row order, No Response branches, buckets, fixed outcomes, explicit category names; rows standing for themselves — no given node identifier or node name —; under the single-meaning conditions edgeOk / distinctTests / sameVars / freshNames, each with a kernel-checked negative witness) with the Lean compiler model (tied to the real parser by the exact comparison of C01) in place of the real compiler — C02_fragment / compile_refines_reference: if the model compiles the sheet and the reference exists, the traces agree for every answer stream (lock-step simulation of the compiler machine and the reference's pass 1; then a bisimulation up to node splitting between the index-resolved abstractions of the two flows, Flow.run_split); the two inputs of the theorem (CoreSheet.toEvent / toRRow of one parsed row) are cross-checked against what the harness sends on every explored sheet. Outside the fragment (C02_fragment_full visible) the claim is decided per explored sheet.",
+    text="Proof: Lean theorems validCert_sound / flows_equiv_of_cert (an accepted bisimulation certificate implies equal observation traces for EVERY infinite sequence of contact replies, field/group values, random draws and sub-flow/webhook/airtime outcomes, under every interpretation of the tests). The verified checker is run by the driver on every generated core sheet between the REAL compiler's output and the reference interpretation refFlow (the statement of C02 made executable in Lean; reference_flow_closed: for EVERY sheet it is a closed flow, so no reference path ends for a structural reason). Universal over sheets: proved for ALL sheets of the fragment CoreSheet.inFragment (every row type of a core sheet except insert_as_block: action rows left unconditionally or conditionally — the compiler's router node behind the action node, two compiled nodes for one reference node —, wait_for_response with or without timeout, split_by_value, split_by_group, split_random, start_new_flow / call_webhook / transfer_airtime, go_to / hard_exit / loose_exit, no_op rows — junctions entered from other rows and left either by one unconditional edge (the compiler creates NO node and re-connects the sources: node elision against the reference's empty node) or by conditional edges first, then unconditional ones (a router node on both sides; the other order is the known finding F-C02-b, kept outside with a kernel-checked witness that reproduces it), under the schedule conditions noopShape / noopSched / firstOk, which every sheet the harness calls noop_stable satisfies —, action rows MERGED into one node by a common node name (a chain of reference nodes, one per row, against ONE compiled node performing their actions in order: node fusion with an offset into the node's actions; the compiler is followed against the fused reading pass1F, tied to the reference reading by the checked clause chainsOk: every row of a chain but the last is left by exactly one unconditional edge into the next, the last row's out-edges are the node's, nothing else enters a merged row — F-C02-d, F-C02-e and the forced clauses with kernel-checked witnesses) —, with any number of conditional or unconditional edges: chains, trees, joins, last-edge-wins defaults, tests in row order, No Response branches, buckets, fixed outcomes, explicit category names; rows standing for themselves — no given node identifier; a node name on action rows only —; under the single-meaning conditions edgeOk / distinctTests / sameVars / freshNames, each with a kernel-checked negative witness; of the no_op conditions the forced ones have witnesses, four shapes the proof's schedule does not cover are listed as not shown to be forced) with the Lean compiler model (tied to the real parser by the exact comparison of C01) in place of the real compiler — C02_fragment / compile_refines_reference: if the model compiles the sheet and the reference exists, the traces agree for every answer stream (lock-step simulation of the compiler machine and the reference's pass 1 — for no_op rows against a schedule of the edges in the order in which the compiler's lazy junctions let them take effect —; then a bisimulation up to node splitting, node elision and node fusion between the index-resolved abstractions of the two flows, Flow.run_fuse); the two inputs of the theorem (CoreSheet.toEvent / toRRow of one parsed row) are cross-checked against what the harness sends on every explored sheet. Outside the fragment (C02_fragment_full visible) the claim is decided per explored sheet.",
     ref="§5 C02",
-    note="Trusts: Lean kernel; certificate SEARCH is untrusted (only the validated certificate counts); harness canonicaliser of actions (invented uuids dropped) and the row→action/operand reference table (harness/gen/sheets.py reference_row); real RowParser used to parse the CSV rows for both sides. Domain: WFcore ∧ NoopStable sheets (DESIGN §5 C02 notes); known finding F-C02-b outside it.",
+    note="Trusts: Lean kernel; certificate SEARCH is untrusted (only the validated certificate counts); harness canonicaliser of actions (invented uuids dropped) and the row→action/operand reference table (harness/gen/sheets.py reference_row); real RowParser used to parse the CSV rows for both sides. Domain: WFcore ∧ NoopStable sheets (DESIGN §5 C02 notes); known findings F-C02-b (no_op left unconditionally first), F-C02-d (entering a row merged by node name), F-C02-e (action row merged into a router node) outside it, each with a deterministic stream.",
     technique="Lean 4 proof of bisimulation-certificate soundness + verified checker run on real compiler output vs executable reference semantics",
 )
 
@@ -28,7 +28,9 @@ LVL = {"catNames": False, "resultName": True}
 class FragmentGen(G.SheetGen):
     """Sheets inside the fragment of the universal theorem (Lean: CoreSheet.inFragment, Props/C02.C02_fragment):
     action rows, wait_for_response / split_by_value / split_by_group rows, start_new_flow / call_webhook /
-    transfer_airtime / split_random rows, go_to and hard/loose exit rows; the conditions leaving one action row name the
+    transfer_airtime / split_random rows, go_to and hard/loose exit rows, no_op rows (junctions: entered from rows that
+    are not no_op rows and left at once, conditional edges first, while their sources receive no other edge), chains of
+    action rows merged into one node by a common node name (each behind the row before it); the conditions leaving one action row name the
     same variable (or none), conditions leaving a wait row name no variable, explicit category names are new when used, tests
     leaving one row are distinct.  Whether a sheet really is in the fragment is decided by the Lean predicate
     (driver op core.views), not by this generator."""
@@ -46,19 +48,47 @@ class FragmentGen(G.SheetGen):
                 return {"value": self.rng.choice(["x", "y"]), "variable": "", "type": "", "name": self.rng.choice(["A", "B", "E"])}
         return super()._edge_for(src)
 
+    def _chain(self):
+        """rows merged into ONE node by their node name: an action row, then 1–3 action rows carrying its node name,
+        each with exactly one unconditional edge from the row before it (explicit `from`); the rows before the last one
+        of the chain receive no other out-edge (closed), nothing else enters a merged row"""
+        rng = self.rng
+        self._node_row(rng.choice(G.ACTION_TYPES))
+        name = "node %d" % len(self.rows)
+        self.rows[-1]["node_name"] = name
+        blank = {"value": "", "variable": "", "type": "", "name": ""}
+        for _ in range(rng.randint(1, 3)):
+            if len(self.rows) >= self.n:
+                break
+            prev = self.nodes[-1]
+            saved = self._edges
+            self._edges = lambda allow_blank_from=True, prev=prev: [(prev["id"], dict(blank))]
+            try:
+                self._node_row(rng.choice(G.ACTION_TYPES))
+            finally:
+                self._edges = saved
+            self.rows[-1]["node_name"] = name
+            prev["closed"] = True
+            self.nodes[-1]["merged"] = True
+
     def build(self):
         rng = self.rng
         self._last_group = None
         while len(self.rows) < self.n:
             r = rng.random()
-            if not self.nodes or r < 0.5:
+            if self.nodes and r < 0.1:
+                self._chain()
+            elif not self.nodes or r < 0.5:
                 self._node_row(rng.choice(G.ACTION_TYPES))
-            elif r < 0.8:
+            elif r < 0.78:
                 self._node_row(rng.choice(self.FRAG_ROUTERS))
-            elif r < 0.92:
+            elif r < 0.88:
                 self._goto_row()
-            else:
+            elif r < 0.93:
                 self._exit_row()
+            else:
+                # a junction: entered, then left at once (conditional edges first) while its sources rest
+                self._noop_row(constrained=True)
         return self.rows
 
 
@@ -92,7 +122,7 @@ def worker(args):
     rp = _parser()
     drv = core.Driver()
     reqs, sheets, vreqs = [], [], []
-    stats = {"views_agree": 0, "in_proved_fragment": 0, "fragment_stream": 0, "generated": 0, "rejected_by_compiler": 0, "noop_unstable": 0, "with_noop": 0, "with_goto": 0,
+    stats = {"views_agree": 0, "in_proved_fragment": 0, "fragment_stream": 0, "generated": 0, "rejected_by_compiler": 0, "noop_unstable": 0, "with_noop": 0, "with_merged_rows": 0, "with_goto": 0,
              "with_router_row": 0, "with_implicit_router": 0, "rows": 0}
     for _ in range(n):
         noop = rng.random() < 0.4
@@ -113,6 +143,7 @@ def worker(args):
         types = [r["type"] for r in rows]
         stats["rows"] += len(rows)
         stats["with_noop"] += "no_op" in types
+        stats["with_merged_rows"] += any(r.get("node_name") for r in rows)
         stats["with_goto"] += "go_to" in types
         stats["with_router_row"] += any(t in G.ROUTER_TYPES for t in types)
         stats["with_implicit_router"] += any(r["type"] in G.ACTION_TYPES for r in rows) and any(r.get("condition") for r in rows)
@@ -181,6 +212,53 @@ F_C02_B = [
 ]
 
 
+# F-C02-d: a go_to into a row that was merged into an existing node (node_name) enters the node at its first action
+F_C02_D = [
+    {"row_id": "a", "type": "send_message", "from": "start", "message_text": "first action", "node_name": "X"},
+    {"row_id": "b", "type": "send_message", "from": "a", "message_text": "second action", "node_name": "X"},
+    {"row_id": "w", "type": "wait_for_response", "from": "b"},
+    {"row_id": "", "type": "go_to", "from": "w", "condition": "again", "message_text": "b"},
+]
+
+# F-C02-e: an action row merged (node_name) into a ROUTER node: its action runs before the decision
+F_C02_E = [
+    {"row_id": "a", "type": "send_message", "from": "start", "message_text": "hello"},
+    {"row_id": "w", "type": "wait_for_response", "from": "a", "node_name": "X"},
+    {"row_id": "b", "type": "send_message", "from": "w", "node_name": "X", "message_text": "after the wait"},
+    {"row_id": "c", "type": "send_message", "from": "w", "condition": "yes", "message_text": "on yes"},
+]
+
+
+def _act_text(o):
+    """the text of an observed send_msg action, else None"""
+    if not isinstance(o, dict) or "act" not in o:
+        return None
+    try:
+        return json.loads(o["act"]).get("text")
+    except Exception:
+        return None
+
+
+def _known_stream(ck, rp, drv, fid, rows, what, pattern_holds):
+    """deterministic known-finding stream: the rows are the trigger; the finding is attributed only when the
+    discrepancy the REAL compiler shows is the recorded one — any other discrepancy is a violation"""
+    status, req, _ = evaluate(rp, rows, want_noop_stable=False)
+    if status == "ok":
+        a = drv.results([req])[0]
+        if "__error__" in a or not a.get("wf"):
+            raise core.Infra(f"{fid} stream: driver problem: {json.dumps(a)[:400]}")
+        if not a.get("equiv"):
+            if pattern_holds(a):
+                ck.known(fid, what, {"csv": rows_to_csv(G.HEADERS, rows), "path": a.get("path"),
+                                     "reference_then": a.get("a"), "compiled_then": a.get("b")})
+            else:
+                ck.violation(f"{fid} trigger: the compiled flow differs from the meaning of the rows in ANOTHER way than the recorded finding",
+                             {"csv": rows_to_csv(G.HEADERS, rows), "rows": rows, "distinguishing_choice_sequence": a.get("path"),
+                              "reference_trace": a.get("traceA"), "compiled_trace": a.get("traceB"),
+                              "reference_then": a.get("a"), "compiled_then": a.get("b")})
+    ck.count("known_finding_stream", 1)
+
+
 def run(ck: core.Check):
     ck.lean = core.lean_step("C02", thorough=(ck.tier == "thorough"))
     if not core.DRIVER_BIN.exists():
@@ -197,7 +275,7 @@ def run(ck: core.Check):
         "equivalence is at observation level {operand, ordered tests with arguments, wait/timeout, result name}; category names are not part of C02's statement",
     ]
     ck.partial_gap = [
-        "C02_full (all sheets) is proved universally only on the fragment CoreSheet.inFragment (C02_fragment, with the Lean compiler model — tied to the real parser in C01 — in place of the real compiler; a quarter of the explored sheets is generated inside it — FragmentGen — and the evidence counts how many explored sheets lie inside it as decided by the Lean predicate: in_proved_fragment); outside it (C02_fragment_full: no_op rows, rows naming an existing node — node merging —, blocks) it is decided per explored sheet by the verified certificate checker on the real output",
+        "C02_full (all sheets) is proved universally only on the fragment CoreSheet.inFragment (C02_fragment, with the Lean compiler model — tied to the real parser in C01 — in place of the real compiler; a quarter of the explored sheets is generated inside it — FragmentGen — and the evidence counts how many explored sheets lie inside it as decided by the Lean predicate: in_proved_fragment); outside it (C02_fragment_full: given node identifiers — _nodeId —, node names on rows that are not action rows, chains of merged rows outside the checked clause chainsOk, blocks, and no_op rows left by several unconditional edges only / into an exit row / entered from a no_op row / never left) it is decided per explored sheet by the verified certificate checker on the real output",
         "reference_flow_closed IS proved for every sheet (the reference interpretation is always a closed flow); the per-sheet closedB run on the reference flow is kept as a cross-check of the driver",
     ]
     rp = _parser()
@@ -211,6 +289,16 @@ def run(ck: core.Check):
             ck.known("F-C02-b", "no_op left first unconditionally, then conditionally: the unconditional target is lost (opposite row order keeps it)",
                      {"csv": rows_to_csv(G.HEADERS, F_C02_B), "path": a.get("path")})
     ck.count("known_finding_stream", 1)
+    # F-C02-d: after "again" the rows continue at the merged row's own action, the compiled flow replays the first one
+    _known_stream(ck, rp, drv, "F-C02-d", F_C02_D,
+                  "a go_to (or edge) into a row merged by node name enters the merged node at its first action: earlier actions are replayed",
+                  lambda a: a.get("path") == [0, 0, 0] and _act_text(a.get("a")) == "second action"
+                  and _act_text(a.get("b")) == "first action")
+    # F-C02-e: the rows wait after "hello", the compiled flow performs the merged action first
+    _known_stream(ck, rp, drv, "F-C02-e", F_C02_E,
+                  "an action row merged by node name into a router node: its action runs before the wait/split instead of after it",
+                  lambda a: a.get("path") == [0] and isinstance(a.get("a"), dict) and "ask" in a["a"]
+                  and _act_text(a.get("b")) == "after the wait")
 
     n_total = 1200 if quick else 24000
     maxrows = 18 if quick else 45
@@ -250,7 +338,7 @@ def run(ck: core.Check):
     ck.extra["certificate_pairs_validated"] = total_pairs
     ck.extra["traces_validated_against_impl"] = len(ck.nontrivial)
     # strata self-check: a run that never saw a go_to / no_op / implicit router is under-testing
-    for need in ("with_noop", "with_goto", "with_router_row", "with_implicit_router", "in_proved_fragment"):
+    for need in ("with_noop", "with_merged_rows", "with_goto", "with_router_row", "with_implicit_router", "in_proved_fragment"):
         if ck.strata.get(need, 0) < 5:
             raise core.Infra(f"generator stratum {need} under-represented: {ck.strata.get(need, 0)}")
 
